@@ -64,6 +64,9 @@ func (c clusterCfg) F() int {
 	return (n - 1) / 3
 }
 
+// F7 is the number of silent validators the first validator set tolerates.
+func (c clusterCfg) F7() int { return (c.N - 1) / 3 }
+
 // MaxVals is the size of the largest validator set of the run.
 func (c clusterCfg) MaxVals() int { return max(c.N, c.SwitchTo) }
 func (c clusterCfg) Nodes() int   { return c.MaxVals() + c.Extra }
